@@ -25,6 +25,7 @@ import (
 	"strconv"
 	"strings"
 	"sync"
+	"sync/atomic"
 
 	"verif/internal/c11"
 	"verif/internal/evid"
@@ -61,6 +62,10 @@ func rawSeed(run int64, i int) int64 {
 	z ^= z >> 31
 	return int64(z >> 1)
 }
+
+// isSample: the written-out samples are the first four general schedules and
+// the first two storm schedules.
+func isSample(i, ng int) bool { return i < 4 || (i >= ng && i < ng+2) }
 
 func params() c11.Params {
 	return c11.Params{SetProcs: true, WatchdogMs: *fWdMs}
@@ -124,7 +129,7 @@ func runChild(seed int64) {
 		fmt.Fprintf(out, "B %d\n", i)
 		out.Flush()
 		res := c11.RunSchedule(schedSeed(seed, i, *fNG), params())
-		if i >= 6 && len(res.Violations) == 0 && len(res.Inconclusive) == 0 && !res.Poisoned {
+		if !isSample(i, *fNG) && len(res.Violations) == 0 && len(res.Inconclusive) == 0 && !res.Poisoned {
 			ag.add(res)
 			if ag.N >= 250 {
 				flush()
@@ -168,7 +173,7 @@ func (t *tailBuf) Write(p []byte) (int, error) {
 
 var (
 	reNum = regexp.MustCompile(`0x[0-9a-f]+|\d+`)
-	reFn  = regexp.MustCompile(`(?m)^(github\.com/(?:lightninglabs/neutrino/blockntfns|lightningnetwork/lnd/queue)\.[^\s(]+(?:\([^)]*\))?[^\s(]*)\(`)
+	reFn  = regexp.MustCompile(`(?m)^(github\.com/(?:lightninglabs/neutrino/blockntfns|lightningnetwork/lnd/queue)\.[^\n]*)\([^()\n]*\)\s*$`)
 )
 
 // crashSig normalises a crash of the child: the panic message plus the first
@@ -202,8 +207,12 @@ func msgAnchor(s string) string {
 
 type agg struct {
 	r        *evid.Run
+	abort    atomic.Bool // too many blocked schedules: stop everything
+	poisoned atomic.Int32
+	cmds     sync.Map // worker -> *exec.Cmd
 	mu       sync.Mutex
 	ndone    int
+	ng       int
 	maxima   map[string]int64
 	counters map[string]int64
 }
@@ -223,7 +232,7 @@ func (a *agg) take(cl childLine) {
 		a.counters[k] += v
 	}
 	a.mu.Unlock()
-	if cl.Index < 6 {
+	if isSample(cl.Index, a.ng) {
 		sc := c11.Derive(res.Seed, params())
 		ops := sc.Ops
 		if len(ops) > 60 {
@@ -272,6 +281,9 @@ func (a *agg) worker(w, W, n, ng int, wg *sync.WaitGroup) {
 	defer wg.Done()
 	after := -1
 	for restarts := 0; ; restarts++ {
+		if a.abort.Load() {
+			return
+		}
 		args := []string{"-child", "-tier", a.r.Tier, "-seed", strconv.FormatInt(a.r.Seed, 10),
 			"-n", strconv.Itoa(n), "-ng", strconv.Itoa(ng), "-w", strconv.Itoa(w), "-W", strconv.Itoa(W), "-after", strconv.Itoa(after),
 			"-watchdog-ms", strconv.Itoa(*fWdMs)}
@@ -286,6 +298,10 @@ func (a *agg) worker(w, W, n, ng int, wg *sync.WaitGroup) {
 		if err := cmd.Start(); err != nil {
 			a.r.Inconclusive("cannot start child: " + err.Error())
 			return
+		}
+		a.cmds.Store(w, cmd)
+		if a.abort.Load() {
+			_ = cmd.Process.Kill()
 		}
 		rd := bufio.NewReaderSize(stdout, 1<<20)
 		begun, finished := -1, -1
@@ -310,6 +326,14 @@ func (a *agg) worker(w, W, n, ng int, wg *sync.WaitGroup) {
 					} else {
 						finished = cl.Index
 						a.take(cl)
+						if cl.Result.Poisoned && a.poisoned.Add(1) >= 3 && !a.abort.Swap(true) {
+							// Each blocked schedule costs a full watchdog
+							// period; three are enough to report.
+							a.cmds.Range(func(_, c any) bool {
+								_ = c.(*exec.Cmd).Process.Kill()
+								return true
+							})
+						}
 					}
 				}
 			}
@@ -321,7 +345,7 @@ func (a *agg) worker(w, W, n, ng int, wg *sync.WaitGroup) {
 			}
 		}
 		werr := cmd.Wait()
-		if werr == nil {
+		if werr == nil || a.abort.Load() {
 			return
 		}
 		if begun > finished {
@@ -374,7 +398,12 @@ func replay(r *evid.Run) {
 	sc := c11.Derive(seed, params())
 	b, _ := json.Marshal(sc)
 	fmt.Printf("replaying schedule seed %d: %s\n", seed, b)
-	rounds := r.Pick(300, 3000)
+	// A schedule fixes the plan, not the interleaving: repeat it. Storm
+	// schedules take about 1 ms, general ones a few ms.
+	rounds := r.Pick(3000, 30000)
+	if sc.Family == c11.FamStorm {
+		rounds *= 10
+	}
 	hits := map[string]int{}
 	for i := 0; i < rounds; i++ {
 		res := c11.RunSchedule(seed, params())
@@ -406,16 +435,19 @@ func main() {
 		replay(r)
 		return
 	}
-	r.Rule("One case = one schedule, a pure function of (run seed, index): GOMAXPROCS in {1,2,4,16}; 0-60 preloaded blocks; " +
-		"0-500 connect/disconnect events (reorg bursts) emitted on an UNBUFFERED source channel; 1-12 subscribers each with a start " +
-		"point (before emission / at hand-over k / at the instant Stop is called), a height mode (0, tip, inside the chain, 1, above tip), " +
-		"a consumer kind (fast, gosched, slow, bursty, stalled = never reads until released or never), a cancel timing (none, immediately, " +
-		"after N items read, at hand-over k from another goroutine, after Stop; optionally two concurrent Cancel calls); Stop after " +
-		"quiescence, at hand-over k, or at once (optionally called twice concurrently). The real SubscriptionManager runs over the harness " +
-		"source; the source serialises 'event k handed over' and 'NotificationsSinceHeight(h) answered' into one log, which fixes every " +
-		"subscription's registration point and hence its reference stream. Fingerprint = #subscribers x set of consumer kinds x set of " +
-		"cancel timings x stop timing x event-count bucket. Non-trivial = at least one subscription registered and at least one " +
-		"notification was read by a subscriber.")
+	r.Rule("One case = one schedule, a pure function of (run seed, index), run against a fresh real SubscriptionManager over the harness " +
+		"NotificationSource (UNBUFFERED Notifications channel; backlog computed from the harness's own chain of handed-over events). " +
+		"GENERAL family (first 400 / 20 000 indices): GOMAXPROCS in {1,2,4,16}; 0-60 preloaded blocks; 0-500 connect/disconnect events " +
+		"(reorg bursts); 1-12 subscribers each with a start point (before emission / at hand-over k / at the instant Stop is called), a " +
+		"height mode (0, tip, inside the chain, 1, above tip), a consumer kind (fast, gosched, slow, bursty, stalled = never reads until " +
+		"released at the end, or never), a cancel timing (none, immediately, after N items read, at hand-over k from another goroutine, " +
+		"after Stop; optionally two concurrent Cancel calls); Stop after quiescence, at hand-over k, or at once (optionally twice " +
+		"concurrently). STORM family (the remaining 100 000 / 1 200 000 indices, about 1 ms each): 2-12 pre-registered prompt readers, " +
+		"2-14 events emitted back to back, Stop called in the middle of the emission, 0-2 subscribers with a backlog arriving at that " +
+		"instant. The source serialises 'event k handed over' and 'NotificationsSinceHeight(h) answered' into one order, which fixes every " +
+		"subscription's registration point and hence its reference stream = backlog ++ events handed over afterwards. Fingerprint = family x " +
+		"#subscribers x set of consumer kinds x set of cancel timings x stop timing x event-count bucket. Non-trivial = at least one " +
+		"subscription registered and at least one notification was read by a subscriber.")
 	r.Assume("Go channel semantics: a receive that reports closed means no later send on that channel can succeed (it would panic, which the parent reports as a crash violation).")
 	r.Assume("The manager calls NotificationsSinceHeight and receives from Notifications() on one goroutine (its handler); the harness source relies on this only to attribute registration points, and parks its emitter during the call so that the attribution is exact.")
 	r.Assume("At most one NewSubscription call per distinct height value is in flight at a time (harness-imposed) so that a NotificationsSinceHeight(h) call can be attributed to its caller.")
@@ -426,7 +458,7 @@ func main() {
 		"failed_subscribe_calls":                     failed,
 		"goroutines_left_running_until_manager_stop": held,
 		"goroutines_left_after_manager_stop":         after,
-		"note": "observation only, not asserted: the statement does not speak about goroutines of failed registrations",
+		"note":                                       "observation only, not asserted: the statement does not speak about goroutines of failed registrations",
 	})
 
 	// 400 / 20 000 schedules of the general family plus a large number of
@@ -440,7 +472,7 @@ func main() {
 	if W > n {
 		W = n
 	}
-	a := &agg{r: r, maxima: map[string]int64{}, counters: map[string]int64{}}
+	a := &agg{r: r, ng: ng, maxima: map[string]int64{}, counters: map[string]int64{}}
 	var wg sync.WaitGroup
 	for w := 0; w < W; w++ {
 		wg.Add(1)
@@ -452,6 +484,9 @@ func main() {
 	}
 	for k, v := range a.maxima {
 		r.Count(k, v)
+	}
+	if a.abort.Load() {
+		r.Set("aborted_early", "three schedules ended in a watchdog verdict; the remaining schedules were not run")
 	}
 	r.Count("schedules_completed", int64(a.ndone))
 	if a.ndone < n {
